@@ -2,6 +2,7 @@
 # apply a semantics-preserving refactoring to /repo, run checks, undo: every check must exit 0.
 patch=$1; shift
 cd /verif
+rm -rf build/evidence.keep; cp -r evidence build/evidence.keep
 git -C /repo diff --quiet || { echo "/repo has uncommitted changes"; exit 2; }
 git -C /repo apply $(realpath $patch) || { echo APPLY-FAILED; exit 2; }
 for p in "$@"; do
@@ -9,3 +10,4 @@ for p in "$@"; do
   echo "== $(basename $patch) vs $p: rc=$rc"; grep -E "^VIOLATION|^  failed obligation|^UNDECIDED|^OK|^KNOWN" build/benign_$p.out | cut -c1-240 | head -6
 done
 git -C /repo checkout -- .
+rm -rf evidence; cp -r build/evidence.keep evidence   # evidence of a patched tree is never kept
